@@ -1666,6 +1666,7 @@ pub fn run(a: &Args) {
         }
         crate::api::report(&mut out);
         crate::routes::run(&mut out).await;
+        crate::route_table::run(&mut out, &ctx).await;
         let carries = detect_carries(&ctx).await;
         out.extra.insert("message_kinds_adopting_the_virtual_time(generic,fast_get,fast_set,pooled_get,pooled_set,batch_get,batch_set)".into(), json!(carries));
         for (tn, tops, label) in timed_corpus(&ctx) {
